@@ -1,7 +1,8 @@
 (* Driver for the C12 model.  usage: modelrun_c12 run|decode < cases > results
 
    run: one case per line, operations separated by " | ":
-     S <h> <pid> <cb> <fresh> <spf|-> <pipefail> <forkfail> <execerr|-> ; <stdio> ; <table> ; <answers>
+     S <h> <pid> <cb> <fresh> <spf|-> <pipefail> <forkfail> <execerr|-> <mask> ; <stdio> ; <table> ; <answers>
+        mask    hex, bit (sig-1) set = signal sig blocked on entry
         stdio   comma list of i | p | h<fd> | b        ("-" = none)
         table   comma list of <fd>=<file>/<cx>         ("-" = empty)
         answers blank separated E | 0 | C | P<status> | O   (may be empty)
@@ -48,6 +49,14 @@ let str_table (t : entry option list) : string =
   String.concat "," (List.map (fun (fd, e) ->
     Printf.sprintf "%d=%d/%d" (int_of_nat fd) (int_of_nat e.e_file) (if e.e_cx then 1 else 0)) l)
 
+let mask_of_hex (h : string) : bool list =
+  let v = BZ.of_string ("0x" ^ h) in
+  List.init 65 (fun i -> i >= 1 && BZ.testbit v (i - 1))
+let hex_of_mask (m : bool list) : string =
+  let v = ref BZ.zero in
+  List.iteri (fun i b -> if b && i >= 1 then v := BZ.logor !v (BZ.shift_left BZ.one (i - 1))) m;
+  BZ.format "%x" !v
+
 let parse_op (s : string) : op =
   let s = String.trim s in
   match s.[0] with
@@ -55,12 +64,13 @@ let parse_op (s : string) : op =
       (match String.split_on_char ';' (String.sub s 1 (String.length s - 1)) with
        | [hd; st; tb; an] ->
            (match split_on ' ' hd with
-            | [h; pid; cb; fresh; spf; pf; ff; ee] ->
+            | [h; pid; cb; fresh; spf; pf; ff; ee; mk] ->
                 let sp = { s_tbl = parse_table tb; s_stdio = parse_stdio st;
                            s_cb = (cb = "1"); s_pid = nat_ pid; s_fresh = nat_ fresh;
                            s_sp_fail = (if spf = "-" then None else Some (nat_ spf));
                            s_pipe_fail = (pf = "1"); s_fork_fail = (ff = "1");
-                           s_exec_err = (if ee = "-" then None else Some (z_of_string ee)) } in
+                           s_exec_err = (if ee = "-" then None else Some (z_of_string ee));
+                           s_mask = mask_of_hex mk } in
                 OSpawn (nat_ h, sp, parse_answers an)
             | _ -> failwith ("bad spawn head " ^ hd))
        | _ -> failwith ("bad spawn " ^ s))
@@ -85,8 +95,9 @@ let str_event (e : event) : string =
       let reaped = match r.r_reaped with
         | None -> "" | Some None -> Printf.sprintf " b%d:short" h
         | Some (Some a) -> Printf.sprintf " b%d:%s" h (str_ans a) in
-      Printf.sprintf "s%d:%s:%d q%d:%s c%d:%s t%d:%s%s" h (string_of_z r.r_ret)
-        (if r.r_active then 1 else 0) h (str_table r.r_ptbl) h child h streams reaped
+      Printf.sprintf "s%d:%s:%d q%d:%s c%d:%s t%d:%s M%d:%s%s" h (string_of_z r.r_ret)
+        (if r.r_active then 1 else 0) h (str_table r.r_ptbl) h child h streams
+        h (hex_of_mask r.r_mask) reaped
   | EWait (h, a) -> Printf.sprintf "w%d:%s" (int_of_nat h) (str_ans a)
   | EReap (_, _, _) -> ""
   | EStop h -> Printf.sprintf "stop%d" (int_of_nat h)
